@@ -23,6 +23,7 @@ theorem stepThr_mono (c : WMCfg) (s s' : St) (tid : Nat) (t : Thr) (h : stepThr 
       · cases h; exact Nat.le_refl _
       · split at h <;> cases h <;> exact Nat.le_refl _
       · split at h <;> cases h <;> exact Nat.le_refl _
+      · split at h <;> cases h <;> exact Nat.le_refl _
       · split at h <;> cases h
         · rename_i hd; show s.doneUntil ≤ _ + 1; omega
         · exact Nat.le_refl _
@@ -37,6 +38,7 @@ theorem stepThr_mono (c : WMCfg) (s s' : St) (tid : Nat) (t : Thr) (h : stepThr 
       · cases h
       · cases h
       · cases h
+      · cases h
       · split at h <;> cases h <;> exact Nat.le_refl _
       · split at h <;> cases h; exact Nat.le_refl _
 
@@ -46,6 +48,7 @@ theorem step_mono (c : WMCfg) (ct : Bool) (s s' : St) (a : Act) (h : step c ct s
   | begin tid i => simp only [step] at h; split at h <;> cases h; exact Nat.le_refl _
   | done tid i => simp only [step] at h; split at h <;> cases h; exact Nat.le_refl _
   | wait tid i => simp only [step] at h; split at h <;> cases h; exact Nat.le_refl _
+  | adv tid => simp only [step] at h; split at h <;> cases h; exact Nat.le_refl _
   | run tid =>
     simp only [step] at h
     cases ht : s.thr tid with
@@ -93,6 +96,11 @@ theorem wait_instr_kind (c : WMCfg) (k : Kind) (st i : Nat)
     match st with
     | 0 => simp at h; exact h
     | n + 1 => simp at h
+  | adv =>
+    simp only [progOf] at h
+    match st with
+    | 0 => simp at h
+    | n + 1 => simp at h
 
 theorem W.step_thr (c : WMCfg) {s s' : St} {tid : Nat} {t : Thr} (hW : W s) (ht : s.thr tid = some t)
     (h : stepThr c s tid t = some s') : W s' := by
@@ -116,6 +124,9 @@ theorem W.step_thr (c : WMCfg) {s s' : St} {tid : Nat} {t : Thr} (hW : W s) (ht 
       cases hl : t.loc <;> simp only [hl] at h
       · cases h
         exact W.set hW (Nat.le_refl _) tid _ ⟨by simp, hT.notifiedLe, hT.returnedLe⟩
+      · split at h <;> cases h
+        · exact W.set hW (Nat.le_refl _) tid _ ⟨by simp [nextInstr], hT.notifiedLe, hT.returnedLe⟩
+        · exact W.set hW (Nat.le_refl _) tid _ ⟨(by intro u hu; simp only at hu; split at hu <;> cases hu), hT.notifiedLe, hT.returnedLe⟩
       · split at h <;> cases h
         · exact W.set hW (Nat.le_refl _) tid _ ⟨by simp [nextInstr], hT.notifiedLe, hT.returnedLe⟩
         · exact W.set hW (Nat.le_refl _) tid _ ⟨by simp, hT.notifiedLe, hT.returnedLe⟩
@@ -166,6 +177,7 @@ theorem W.step_thr (c : WMCfg) {s s' : St} {tid : Nat} {t : Thr} (hW : W s) (ht 
       · cases h
       · cases h
       · cases h
+      · cases h
       · split at h <;> cases h
         · rename_i hge
           exact W.set hW (Nat.le_refl _) tid _ ⟨by simp [nextInstr], hT.notifiedLe, fun _ => by simp [nextInstr]; omega⟩
@@ -191,6 +203,10 @@ theorem W.reachable (c : WMCfg) (ct : Bool) (s : St) (hr : Reachable (sys c ct) 
       split at hs <;> cases hs
       exact W.set hW (Nat.le_refl _) tid _ (fresh tid _)
     | wait tid i =>
+      simp only [step] at hs
+      split at hs <;> cases hs
+      exact W.set hW (Nat.le_refl _) tid _ (fresh tid _)
+    | adv tid =>
       simp only [step] at hs
       split at hs <;> cases hs
       exact W.set hW (Nat.le_refl _) tid _ (fresh tid _)
